@@ -51,6 +51,7 @@ def sparc_ld_(obj, rd, a, op3, rs1, i, asi, rs2, simm13):
     dst = env.r[rd]
     if op3 & 0xF == 0b0011 and rd % 1 == 1:
         raise InstructionError(obj)
+    obj.rd = rd
     obj.operands = [src, dst]
     obj.type = type_data_processing
 
@@ -78,6 +79,7 @@ def sparc_ldf_ldc(obj, rd, a, op3, rs1, i, unused, rs2, simm13):
     dst = env.f[rd] if a == 0 else env.c[rd]
     if op3 & 0xF == 0b0001:
         dst = env.fsr if a == 0 else env.csr
+    obj.rd = rd
     obj.operands = [src, dst]
     obj.type = type_data_processing
 
@@ -102,6 +104,7 @@ def sparc_st_(obj, rd, a, op3, rs1, i, asi, rs2, simm13):
     src = env.r[rd]
     if obj.mnemonic == "std" and rd % 1 == 1:
         raise InstructionError(obj)
+    obj.rd = rd
     obj.operands = [src, dst]
     obj.type = type_data_processing
 
@@ -135,6 +138,7 @@ def sparc_stf_stc(obj, rd, a, op3, rs1, i, unused, rs2, simm13):
         src = env.fsr if a == 0 else env.csr
     elif op3 & 0xF == 0b0110:
         src = env.fq if a == 0 else env.cq
+    obj.rd = rd
     obj.operands = [src, dst]
     obj.type = type_data_processing
 
